@@ -12,7 +12,7 @@ EXPLANATION = (
     "order, compare only with better-ranked features that are still kept, drop iff corr > thresh_corr "
     "-- strict --, thresh_filter runs first, filters are chained); R-abs-corr (a signed statistic -- "
     ".corr, pearsonr, spearmanr, correlation distance -- goes through abs before it is compared or "
-    "ranked, in every exported measure and every filter); R-measure-formula (monomial normal form of "
+    "ranked, in every exported measure and every filter); R-measure-formula (the gate measures take shares over all rows of the feature -- no value_counts(normalize=True) without dropna=False --; monomial normal form of "
     "cramerv_measure and tschuprowt_measure = the textbook definitions; chi2 from "
     "chi2_contingency(crosstab)); R-measure-registry (every exported association measure returns "
     "(active, {its __name__: value}), the key the ranking looks up); R-select-pure (effect analysis: "
@@ -44,6 +44,7 @@ def check(ctx):
     S.check_union_refiltered(ctx, "R-union-refiltered")
     S.check_colsample_cover(ctx, "R-colsample-cover")
     S.check_filter_wrappers(ctx, "R-measure-registry")
+    S.check_share_denominator(ctx, "R-measure-formula")
     # an explicitly empty list of filters / measures is a configuration ("no inter-feature filter"), not
     # "not given": the defaults replace None only
     from .truthiness import check_optional_by_none
